@@ -196,6 +196,51 @@ func c05Gadget(resp *drv.Response) error {
 		{Gadget{Kind: "rangecheck"}, []*big.Int{two32}},
 		{Gadget{Kind: "rangecheck"}, []*big.Int{big.NewInt(7)}},
 	}
+	// "an honest prover's values always fit": the honest hints on the operands at which a quotient or a remainder sits on a boundary
+	// (the integer reduced is exactly p, 2p, p 2^64; remainder 0 and p - 1; the largest stated operands) are accepted with the field's result
+	fit := []gcase{
+		{Gadget{Kind: "reduce"}, []*big.Int{bigP}}, {Gadget{Kind: "reduce"}, []*big.Int{new(big.Int).Mul(bigP, big.NewInt(2))}},
+		{Gadget{Kind: "reduce"}, []*big.Int{pm1}}, {Gadget{Kind: "reduce"}, []*big.Int{big.NewInt(0)}},
+		{Gadget{Kind: "reduce"}, []*big.Int{new(big.Int).Sub(two64, one)}}, {Gadget{Kind: "reduce"}, []*big.Int{two64}},
+		{Gadget{Kind: "reduce"}, []*big.Int{new(big.Int).Mul(bigP, two64)}}, {Gadget{Kind: "reduce"}, []*big.Int{new(big.Int).Sub(new(big.Int).Mul(bigP, two64), one)}},
+		{Gadget{Kind: "reduce"}, []*big.Int{new(big.Int).Sub(pow2(128), one)}},
+		{Gadget{Kind: "muladd"}, []*big.Int{pm1, pm1, pm1}}, {Gadget{Kind: "muladd"}, []*big.Int{big.NewInt(0), big.NewInt(0), big.NewInt(0)}},
+		{Gadget{Kind: "muladd"}, []*big.Int{big.NewInt(1), pm1, big.NewInt(1)}}, // a b + c = p exactly
+		{Gadget{Kind: "muladd"}, []*big.Int{big.NewInt(2), pm1, big.NewInt(2)}}, // = 2p
+		{Gadget{Kind: "add"}, []*big.Int{pm1, big.NewInt(1)}}, {Gadget{Kind: "add"}, []*big.Int{pm1, pm1}}, {Gadget{Kind: "sub"}, []*big.Int{big.NewInt(0), pm1}},
+		{Gadget{Kind: "sub"}, []*big.Int{big.NewInt(0), big.NewInt(0)}}, {Gadget{Kind: "mul"}, []*big.Int{pm1, big.NewInt(1)}}, {Gadget{Kind: "mul"}, []*big.Int{two32, two32}},
+		{Gadget{Kind: "inverse"}, []*big.Int{big.NewInt(1)}}, {Gadget{Kind: "inverse"}, []*big.Int{pm1}}, {Gadget{Kind: "inverse"}, []*big.Int{two32}},
+		{Gadget{Kind: "rangecheck"}, []*big.Int{pm1}}, {Gadget{Kind: "rangecheck"}, []*big.Int{big.NewInt(0)}}, {Gadget{Kind: "rangecheck"}, []*big.Int{new(big.Int).Sub(bigP, two32)}},
+		{Gadget{Kind: "rangecheck"}, []*big.Int{new(big.Int).Lsh(new(big.Int).Sub(two32, one), 32)}}, // hi = 2^32 - 1, lo = 0: the largest high limb
+	}
+	for _, mode := range []engine.Mode{engine.Native, engine.Plain} {
+		for _, gc := range fit {
+			outs, err := runGadget(&engine.Config{Mode: mode}, gc.g, gc.in, nil)
+			key := fmt.Sprintf("fit/%d/%s/%v", mode, gc.g.Kind, strsOf(gc.in))
+			resp.Count(key, false)
+			var want *big.Int
+			in := gc.in
+			switch gc.g.Kind {
+			case "reduce":
+				want = new(big.Int).Mod(in[0], bigP)
+			case "muladd":
+				want = new(big.Int).Mod(new(big.Int).Add(new(big.Int).Mul(in[0], in[1]), in[2]), bigP)
+			case "add":
+				want = new(big.Int).Mod(new(big.Int).Add(in[0], in[1]), bigP)
+			case "sub":
+				want = new(big.Int).Mod(new(big.Int).Sub(in[0], in[1]), bigP)
+			case "mul":
+				want = new(big.Int).Mod(new(big.Int).Mul(in[0], in[1]), bigP)
+			case "inverse":
+				want = new(big.Int).ModInverse(in[0], bigP)
+			}
+			if err != nil {
+				resp.Violate("c05/fit/honest-rejected gadget="+gc.g.Kind, fmt.Sprintf("%s%v with the honest hints is rejected: %s", gc.g.Kind, strsOf(gc.in), firstLine(err)), map[string]any{"gadget": gc.g.Kind, "in": strsOf(gc.in)})
+			} else if want != nil && (len(outs) == 0 || outs[0].Cmp(want) != 0) {
+				resp.Violate("c05/fit/honest-wrong gadget="+gc.g.Kind, fmt.Sprintf("%s%v with the honest hints gives %v, the field's result is %v", gc.g.Kind, strsOf(gc.in), strsOf(outs), want), map[string]any{"gadget": gc.g.Kind, "in": strsOf(gc.in)})
+			}
+		}
+	}
 	for _, gc := range cases {
 		for _, hint := range []string{"MulAddHint", "ReduceHint", "SplitLimbsHint", "InverseHint"} {
 			strats := map[string][]string{"MulAddHint": {"k1", "q-1", "q+1", "solve"}, "ReduceHint": {"k1", "k2", "q-1", "q+1", "solve"},
